@@ -161,7 +161,7 @@ class ContinuousMountainCar(
         key: Key[Array, ""],
     ) -> Float[Array, ""]:
         return (
-            100.0 * self.terminal(state, key=key).astype(float)
+            100.0 * self.terminal(next_state, key=key).astype(float)
             - 0.1 * jnp.clip(action, self.min_action, self.max_action) ** 2
         )
 
